@@ -116,10 +116,24 @@ class RealRun:
         except Exception:  # noqa  (unexpected structure: generic walk)
             return _dg(self.pre, extra, len(self.rec))
 
-    def _mk_pre(self, model):
+    def _mk_pre(self, model, perturb=False):
         import kfac
 
         kw = kfac_kwargs(self.cfg)
+        if perturb:
+            # a fresh object built with OTHER constant hyper-parameters, so
+            # that restoring them from the state is observable
+            alt = {'damping': lambda v: v * 3, 'factor_decay': lambda v: 0.77,
+                   'kl_clip': lambda v: v * 5, 'lr': lambda v: v * 2 + 0.01,
+                   'factor_update_steps': lambda v: v + 1,
+                   'inv_update_steps': lambda v: v + 2}
+            defaults = {'damping': 0.001, 'factor_decay': 0.95,
+                        'kl_clip': 0.001, 'lr': 0.1,
+                        'factor_update_steps': 1, 'inv_update_steps': 1}
+            for n, f in alt.items():
+                v = kw.get(n, defaults[n])
+                if not callable(v) and v is not None:
+                    kw[n] = f(v)
         if self.scale_spec is not None:
             kw['grad_scaler'] = self.scaler
         return kfac.preconditioner.KFACPreconditioner(model, **kw)
@@ -169,6 +183,11 @@ class RealRun:
             if len(op) == 1 or self.rank in op[1]:
                 ev['mem'] = dict(self.pre.memory_usage())
                 ev['held'] = held_bytes(self.pre)
+                a = self.pre._assignment
+                ev['gw'] = {n: a.is_grad_worker(n) for n in a.get_layers()}
+                ev['inv'] = {n: {f: a.inv_worker(n, f)
+                                 for f in a.get_factors(n)}
+                             for n in a.get_layers()}
         elif kind == 'ckpt':
             include, compute = op[1], op[2]
             sd = self.pre.state_dict(include_factors=include)
@@ -177,7 +196,8 @@ class RealRun:
             model = R.build_model(self.cfg['model'], self.dtype, self.seed)
             model.load_state_dict(self.model.state_dict())
             self.model = model
-            self.pre = self._mk_pre(model)
+            self.pre = self._mk_pre(
+                model, perturb=self.cfg.get('ckpt_perturb', False))
             self.pre.load_state_dict(sd, compute_inverses=compute)
             self.sched = None
             ev['loaded'] = snap_state(self.pre.state_dict())
@@ -231,7 +251,10 @@ class RealRun:
                 p.grad.div_(scale)
         if self.n > 1:
             flat = torch.cat([p.grad.reshape(-1) for p in params])
+            old_tag = self.world.tag[self.rank]
+            self.world.tag[self.rank] = ('ddp',)
             dist.all_reduce(flat)
+            self.world.tag[self.rank] = old_tag
             flat = flat / self.n
             o = 0
             for p in params:
